@@ -60,7 +60,7 @@ for _n in _CHUNK_STALE[1:]:
 # ---- committee strategies with a scikit-learn BaggingClassifier (C09, G15-K): the bagging members are trained on
 # class *indices*; _aggregate_predict_probas matches the members' classes_ against the ensemble's class labels, which
 # only works by accident when the labels are 0..K-1 (and silently mis-maps columns when a member missed a class)
-_BAGGING_ENTRIES = {"QBC_KL": "QueryByCommittee", "BatchBALD": "BatchBALD", "GreedyBALD": "GreedyBALD"}
+_BAGGING_ENTRIES = {"QBC_KL": "QueryByCommittee", "QBC_VE_bag": "QueryByCommittee", "BatchBALD": "BatchBALD", "GreedyBALD": "GreedyBALD"}
 for _entry, _comp in _BAGGING_ENTRIES.items():
     def _bag(case, v, _entry=_entry):
         return getattr(getattr(case, "entry", None), "name", None) == _entry
